@@ -127,15 +127,27 @@ fn fit_checks<T: Sc>(rng: &mut Rng, case: u64, out: &mut CaseOut, stream: &str, 
         return;
     };
     let _ = ctl.take_log();
+    // in a fifth of the cases the model fails at some call during the fit (transient or persistent);
+    // the twin gets the same fault at the same call index
+    let fault: Option<(u64, bool)> = if rng.chance(0.2) { Some((rng.int(2, 40) as u64, rng.chance(0.5))) } else { None };
+    if let Some((off, persistent)) = fault {
+        ctl.set_fault((ctl.calls() + off) as i64, persistent);
+        out.count("fits_with_a_model_failure_injected");
+    }
     let evals_before = ctl.n_eval.load(SeqCst);
     let fit = p1.fit(&lm);
+    ctl.set_fault(-1, false);
     let evals_in_fit = ctl.n_eval.load(SeqCst) - evals_before;
     let log_fit = ctl.take_log();
     // (ii) the twin: same optimizer over the spied problem
     let ctl2 = SpyCtl::logging();
     let p2 = build_problem::<T>(&spec, &ctl2).expect("twin build");
     let _ = ctl2.take_log();
+    if let Some((off, persistent)) = fault {
+        ctl2.set_fault((ctl2.calls() + off) as i64, persistent);
+    }
     let (p2, rep2, steps) = minimize_spied(&lm, p2);
+    ctl2.set_fault(-1, false);
     let log_twin = ctl2.take_log();
     out.evals += 1;
     out.nontrivial.push(crate::rng::hash_u64s([spec.hash(), crate::rng::fnv(cfg.to_json().to_string().as_bytes())]));
@@ -174,6 +186,13 @@ fn fit_checks<T: Sc>(rng: &mut Rng, case: u64, out: &mut CaseOut, stream: &str, 
     }
     out.add("trial_steps", steps.len().saturating_sub(1) as u64);
     if !success {
+        return;
+    }
+    if fault.is_some() && ctl.n_injected.load(SeqCst) > 0 {
+        // the model failed during this fit (at a call the optimizer did not observe, e.g. the final
+        // re-application of the accepted parameters): the coherence clauses are stated for models that
+        // evaluate without error; the twin comparison above has been made
+        out.count("successful_fits_with_an_unobserved_model_failure");
         return;
     }
     // coherent final state
